@@ -13,7 +13,7 @@ from ..rng import digest
 from .. import observe as ob
 
 PROP = "C19"
-RUNS = {"quick": 5000, "thorough": 400000}
+RUNS = {"quick": 5000, "thorough": 120000}
 WALL = {"quick": 280, "thorough": 3500}
 RULE = ("one run = one generated document, 1-3 (line, clone) pairs of any record type, up to 10 "
         "interleaved edits per pair; distinct = distinct (record type, edit kind, side) tuples x line digest")
